@@ -178,6 +178,10 @@ CURATED = [
     ("mixed_rec", G("S: Ta S Tb S | ")),
     ("left_right", G("S: S Ta S | Tb")),
     ("multi_start_null", G("S: A B C; A: Ta | ; B: A Tb | ; C: Tc")),
+    ("rr_two_null", G("A: Tx A B C | Ty; B: ; C: ")),
+    ("rr_three_null", G("A: Tx A B C D | Ty; B: ; C: Tz | ; D: ")),
+    ("indirect_rr_null", G("A: Tx M | Ty; M: A B C; B: ; C: D; D: ")),
+    ("lr_two_null_mid", G("S: Ta B C Td S | Te; B: Tb | ; C: Tc | ")),
     ("regex_terms", G("S: S Ta | Tb", kinds={"a": "re", "b": "re"})),
     ("regex_expr", G("E: E Tp E {left, 1} | E Tm E {left, 2} | Tn", kinds={"n": "re"})),
 ]
